@@ -60,6 +60,7 @@ THEOREMS = [
     "Cotengra.C14.improved_monotone_step",
     "Cotengra.C14.improved_monotone",
     "Cotengra.C14.reload_agrees",
+    "Cotengra.C14.update_from_tree_monotone",
     "Cotengra.C14.answer_is_for_query",
     "Cotengra.C14.answer_is_for_query_history",
     "Cotengra.C14.fpA_respects",
@@ -81,7 +82,8 @@ TRUSTED = [
 ASSUMPTIONS = [
     "sequential processes: a restart starts a fresh _mem_cache on the same directory, nobody else writes in between",
     "size dicts with Python int values; one directory layout per directory",
-    "update_from_tree (a second public writer with its own policy) is not exercised",
+    "update_from_tree is exercised with trees built by the harness (its score is tree.get_score(), which for the "
+    "random-greedy class is on a different scale than the stored best_flops: only numeric monotonicity is claimed)",
 ]
 RULE = ("history = 6-14 events over a pool of 4-7 similar contractions x class {scripted hyper, scripted "
         "random-greedy, real hyper, real random-greedy} x hash_method x {memory, directory} x split x policy, "
@@ -178,6 +180,10 @@ def gen_history(rng, tier):
         ans = {"tree": gen.rand_tree(rng, n), "sliced": [], "flops": rng.choice([10, 20, 20, 30, 40, 50])}
         if cls == "hyper" and rng.random() < 0.3 and net.indices():
             ans["sliced"] = [gen.sym(rng.choice(net.indices()))]
+        if rng.random() < 0.1:
+            events.append({"q": qi, "ans": ans, "api": "update",
+                           "overwrite": rng.choice([False, True, "improved", "improved"])})
+            continue
         events.append({"q": qi, "ans": ans, "api": "call" if rng.random() < 0.15 else "search"})
     return {"pool": [[k, n.json()] for k, n in pool], "cfg": cfg, "events": events,
             "mode": "fork"}
@@ -201,7 +207,8 @@ def run_history(hist, base, mode=None):
             cur = dict(cur, **ev["restart"])
             segments.append([dict(cur), []])
         else:
-            segments[-1][1].append({"q": _q(pool[ev["q"]]), "ans": ev["ans"], "api": ev["api"]})
+            segments[-1][1].append({"q": _q(pool[ev["q"]]), "ans": ev["ans"], "api": ev["api"],
+                                    "overwrite": ev.get("overwrite")})
     out = []
     first = True
     for cfg, ops in segments:
@@ -274,6 +281,24 @@ def oracle(hist, obs):
         q = _q(net)
         pol = o["cfg"]
         key = o["key"]
+        if o["api"] == "update":
+            db, da, uc = o["disk_before"], o["disk_after"], o.get("update_con")
+            if o["outcome"] != "ok":
+                bad.append((i, "update-raises", {"exc": o["outcome"], "msg": o.get("msg")}, {}))
+            elif o["searches"]:
+                bad.append((i, "update-searched", {"searches": o["searches"]}, {}))
+            elif hist["cfg"]["disk"]:
+                if db is None and (da is None or [da["path"], da["sliced"]] != [uc["path"], uc["sliced"]]):
+                    bad.append((i, "update-did-not-store", {"after": da, "tree": uc}, {}))
+                if db is not None and ev["overwrite"] is not True and (da is None or da["score"] > db["score"]):
+                    bad.append((i, "stored-score-got-worse", {"before": db, "after": da}, {}))
+                if db is not None and ev["overwrite"] is False and da != db:
+                    bad.append((i, "update-overwrote-with-overwrite-False", {"before": db, "after": da}, {}))
+            if o["stored"] is not None and uc and [o["stored"]["path"], o["stored"]["sliced"], o["stored"]["score"]] == \
+                    [uc["path"], uc["sliced"], uc["score"]]:
+                storer[key] = qi
+            last_struct[key] = o["stored"]
+            continue
         if o["outcome"].startswith("raised"):
             extra = {}
             src = storer.get(key)
@@ -379,7 +404,7 @@ def model_compare(ctx, drv, hist, obs):
     for o in obs:
         if o is None:
             continue
-        for k in ("searched_con", "stored", "disk_before", "disk_after"):
+        for k in ("searched_con", "stored", "disk_before", "disk_after", "update_con"):
             if o.get(k) and "score" in o[k]:
                 scores.add(o[k]["score"])
     rank = {s: r for r, s in enumerate(sorted(scores))}
@@ -401,6 +426,20 @@ def model_compare(ctx, drv, hist, obs):
                 prev_stored.clear()
             continue
         net = pool[ev["q"]]
+        if o["api"] == "update":
+            uc = o.get("update_con")
+            if not uc or o["outcome"] != "ok":
+                ctx.count("model_compare_skipped:update-failed")
+                return None
+            prev = o.get("disk_before") or prev_stored.get(o["key"])
+            st = o.get("stored")
+            tie = bool(ev["overwrite"] == "improved" and prev is not None and prev["score"] == uc["score"]
+                       and [prev["path"], prev["sliced"]] != [uc["path"], uc["sliced"]]
+                       and st is not None and [st["path"], st["sliced"]] == [uc["path"], uc["sliced"]])
+            prev_stored[o["key"]] = st
+            mev.append({"update": {"q": ev["q"], "con": jcon(net, uc), "tie_replace": tie,
+                                   "overwrite": {False: "no", True: "yes", "improved": "improved"}[ev["overwrite"]]}})
+            continue
         sc = o.get("searched_con")
         if sc and "error" not in sc:
             con = jcon(net, sc)
@@ -429,6 +468,18 @@ def model_compare(ctx, drv, hist, obs):
         if o is None:
             continue
         net = pool[ev["q"]]
+        if o["api"] == "update":
+            rs = None if o["stored"] is None else [o["stored"]["path"], rank[o["stored"]["score"]],
+                                                   sorted(gen.unsym(net)[x] for x in o["stored"]["sliced"]
+                                                          if x in gen.unsym(net))]
+            ms = None if m.get("stored") is None else [m["stored"]["path"], m["stored"]["score"],
+                                                       sorted(m["stored"]["sliced"])]
+            if m.get("kind") != "update" or rs != ms:
+                ok = False
+                ctx.corr_broken("history: model and implementation disagree at update_from_tree event %d" % i,
+                                {"hist": hist, "event": i, "real": rs, "model": ms})
+                break
+            continue
         if o["outcome"] == "KeyError":
             kind = "KeyError"
         elif o["outcome"].startswith("raised"):
@@ -511,8 +562,13 @@ def check_history(ctx, drv, hist, root, tag):
             continue
         kind = o["outcome"] if o["outcome"] != "ok" else (
             "hit" if o["searches"] == 0 else "searched")
+        if o["api"] == "update":
+            kind = "update/%s/%s" % (ev["overwrite"], "present" if o["disk_before"] or not cfg["disk"] else "absent")
         pol = o["cfg"]
-        ctx.count("event:%s/overwrite=%s/cache_only=%s" % (kind, pol["overwrite"], pol["cache_only"]))
+        if o["api"] == "update":
+            ctx.count("event:" + kind)
+        else:
+            ctx.count("event:%s/overwrite=%s/cache_only=%s" % (kind, pol["overwrite"], pol["cache_only"]))
         ctx.count("api:" + o["api"])
         if pol["overwrite"] == "improved" and o["searches"] and o.get("searched_con") and o["stored"]:
             rep = o["stored"]["path"] == o["searched_con"].get("path") and \
